@@ -23,7 +23,7 @@ use markdown_it::plugins::html::html_inline::HtmlInline;
 use crate::{hex, unhex_str};
 use crate::custom;
 
-fn h(s: &str) -> String { if s.is_empty() { "-".into() } else { hex(s.as_bytes()) } }
+fn h(s: &str) -> String { hex(s.as_bytes()) }
 fn ho(s: &Option<String>) -> String { match s { None => "none".into(), Some(x) => format!("s{}", hex(x.as_bytes())) } }
 
 pub fn kind_of(node: &Node) -> String {
